@@ -16,7 +16,7 @@ RULE = ('(a) TruncationMonitor on every depth-0 public UTPM call with D>1 while 
         'D\'=1 forward result against the program run on plain ndarrays; eigen/singular vectors only when the eigenvalues of A_0 are '
         'distinct; class = (call or program, D, shapes); non-trivial = some input coefficient of order >= D\' is non-zero')
 ASSUMPTIONS = ['the same operation on the truncated polynomial is the reference', 'eig is excluded (supports D<=2 only by its own assertion)']
-REQUIRED = ['truncation-shadow', 'program:forward', 'program:reverse', 'program:D1-equals-numpy', 'hostile:large-high-coefficients', 'pattern', 'kink', 'highD', 'late-complex', 'extract']
+REQUIRED = ['truncation-shadow', 'program:forward', 'program:reverse', 'program:D1-equals-numpy', 'hostile:large-high-coefficients', 'pattern', 'kink', 'highD', 'late-complex', 'extract', 'compound']
 
 _mon = None
 
@@ -69,6 +69,8 @@ def cases(tier, seed):
     for D in (3, 4, 5):
         for k in range(1, D):
             out.append({'kind': 'latecomplex', 'seed': case_seed('C12', seed, 'latecomplex', D, k), 'params': {'D': D, 'k': k}})
+    for i in range(16 if tier == 'quick' else 160):
+        out.append({'kind': 'compound', 'seed': case_seed('C12', seed, 'compound', i), 'params': {'D': 3 + i % 4, 'norm': [0.3, 2.0, 6.0, 10.0][i % 4], 'n': 2 + (i // 4) % 3}})
     for i in range(12 if tier == 'quick' else 120):
         out.append({'kind': 'extract', 'seed': case_seed('C12', seed, 'extract', i), 'params': {'D': 3 + i % 4, 'N': 1 + i % 3}})
     for i in range(24 if tier == 'quick' else 200):
@@ -94,6 +96,8 @@ def run_case(ctx, case):
         return _latecomplex(ctx, case['params'], rng)
     if case['kind'] == 'extract':
         return _extract(ctx, case['params'], rng)
+    if case['kind'] == 'compound':
+        return _compound(ctx, case['params'], rng)
     if case['kind'] == 'pattern':
         return _pattern(ctx, case['params'], rng)
     if case['kind'] == 'kink':
@@ -118,6 +122,39 @@ def _pattern(ctx, p, rng):
                 ctx.skip('sut-raises:pattern')
     if sum(ctx.violation_count.values()) == before:
         ctx.ok('pattern', ('pattern', p['fn'], p['pattern'], p['D']))
+
+
+def _compound(ctx, p, rng):
+    """module-level functions composed of several polynomial operations (expm and its fixed-order relatives): whatever they
+    decide from their argument, the low coefficients are those of the truncated argument - also for base matrices of large norm,
+    where the approximation itself is documented to be poor (the property is about consistency, not accuracy)"""
+    D, n, nrm = p['D'], p['n'], p['norm']
+    a = rng.normal(size=(D, 2, n, n))
+    for pp in range(2):
+        a[0, pp] *= nrm / np.linalg.norm(a[0, pp], 1)
+    import algopy.linalg
+    fns = [('expm', algopy.expm)] + [(nm, getattr(algopy.linalg, nm)) for nm in ('expm_higham_2005',) if hasattr(algopy.linalg, nm)]
+    probe.S.suppress = True
+    try:
+        for nm, f in fns:
+            try:
+                full = f(UTPM(a.copy())).data
+            except Exception:
+                ctx.skip('sut-raises:compound:' + nm); continue
+            if not np.all(np.isfinite(full)):
+                ctx.skip('out_of_domain:nonfinite'); continue
+            for Dp in range(1, D):
+                try:
+                    part = f(UTPM(a[:Dp].copy())).data
+                except Exception:
+                    ctx.skip('sut-raises:compound:' + nm); continue
+                s = _scale(part)
+                err = np.abs(full[:Dp] - part).reshape(Dp, -1).max(axis=1) / s
+                if part.shape != full[:Dp].shape or not np.all(err <= 1e-9):
+                    ctx.violation('compound:%s' % nm, {'function': nm, 'D': D, 'Dp': Dp, 'n': n, 'base_norm': nrm, 'err_over_scale': float(np.max(err))}); return
+            ctx.ok('compound', ('compound', nm, D, n, nrm))
+    finally:
+        probe.S.suppress = False
 
 
 def _extract(ctx, p, rng):
@@ -256,7 +293,7 @@ def _hostile(ctx, p, rng):
 def _scale(b):
     D = b.shape[0]
     m = np.abs(b).reshape(D, -1).max(axis=1) if b.size else np.zeros(D)
-    return np.maximum.accumulate(m) + 1e-300
+    return np.maximum.accumulate(np.asarray(m, dtype=float)) + 1e-300
 
 
 def _program(ctx, p, rng):
